@@ -79,6 +79,15 @@ def run(ck, rng, tier):
             a_, b_ = plant(rng); l_ = rng.randrange(n)
             A[rng.randrange(m)][l_] = a_; B[l_][rng.randrange(p)] = b_
             ck.count("operand pairs with product next to the missing-value code")
+        if m and p and n >= 8 and len(meta) % 3 == 0:
+            # exact zeros in aligned blocks of four along the inner dimension (an indicator column sorted by group, a sparse row):
+            # rows 4k..4k+3 of a column of B, and the matching stretch of a row of A, with non-zero entries after them
+            jb, ia, k4 = rng.randrange(p), rng.randrange(m), 4 * rng.randrange(0, (n - 4) // 4)
+            for q in range(k4, k4 + 4):
+                B[q][jb] = 0.0
+            for q in range(0, 4):
+                A[ia][q] = 0.0
+            ck.count("aligned blocks of exact zeros along the inner dimension")
         inp.append("matmul %s %s %s" % (vf.fmt_mat(A, n), vf.fmt_mat(B, p), vf.fmt_mat(R0, p)))
         meta.append(("matmul", (m, n, p), A, B, R0))
         ck.count("matmul n%%4=%d" % (n % 4))
@@ -155,6 +164,11 @@ def run(ck, rng, tier):
         if rng.random() < 0.3:      # ties in the key column
             for r in M2:
                 r[key] = float(rng.randint(0, 3))
+        elif _ % 7 == 3 and m >= 3:
+            # distinct values of the key column a few 1e-8 (relative) apart, not in order: equal at single precision
+            base_ = rng.choice((1e6, 3.0, 1e-3))
+            for a_, r in enumerate(M2):
+                r[key] = base_ * (1.0 + 1e-8 * ((a_ * 5) % 7 - 3)) if a_ != 1 else base_ * 1e-5
         inp.append("sort %s %d" % (vf.fmt_mat(M2, n), key))
         meta.append(("sort", (m, n), M2, key))
         u = [rnd_val(rng, None) for _ in range(n)]
@@ -300,6 +314,13 @@ def run(ck, rng, tier):
                     direct_fail[i] = ("MatrixSort", "order", "not a sorted permutation of the rows")
                 if sorted(map(tuple, Rv)) != sorted(map(tuple, M)) or any(Rv[a][key] < Rv[a + 1][key] for a in range(m - 1)):
                     direct_fail[i] = ("MatrixReverseSort", "order", "not a reverse-sorted permutation of the rows")
+                colk = sorted(r[key] for r in M)
+                if m > 0 and o.get("vsorted") != colk:
+                    direct_fail[i] = ("DVectorSort", "order", "the sorted key column is not the ascending rearrangement of its values")
+                elif m > 0 and not any(r[key] != r[key] for r in M):
+                    want = colk[m // 2] if m % 2 else (colk[m // 2] + colk[m // 2 - 1]) / 2.0
+                    if o.get("median") != want:
+                        direct_fail[i] = ("DVectorMedian", "value", "median %r, the middle order statistic is %r" % (o.get("median"), want))
         elif kind == "vec":
             _, (n,), a, b = mt
             checks.add(i, "vdot", "fchk (vdot %s %s) %s" % (cv(a), cv(b), vf.coq_f(o["dot"])))
